@@ -27,18 +27,21 @@ PushOutcomes(B, R, dist) ==
               /\ (s # B \cup R => Cardinality(s) = Size)}}
 
 Init == buf = {} /\ parent = {} /\ hist = <<>>
-Push(kind, r, dist) ==
-    /\ Len(hist) < MaxLen
+PushAll(r, dist) ==
+    /\ Len(hist) < MaxLen /\ Elems(r) \subseteq Free
     /\ \E o \in PushOutcomes(buf, Elems(r), dist) : buf' = o[1] /\ parent' = parent \cup o[2]
-    /\ hist' = Append(hist, [op |-> kind, r |-> r, d |-> dist])
-PushAll(r, dist) == Push("push_all", r, dist)
-PushPrio(r, dist) == Push("push_prio", r, dist)
+    /\ hist' = Append(hist, [op |-> "push_all", r |-> r, d |-> dist])
+PushPrio(r, dist) ==
+    /\ Len(hist) < MaxLen /\ Elems(r) \subseteq Free
+    /\ \E o \in PushOutcomes(buf, Elems(r), dist) : buf' = o[1] /\ parent' = parent \cup o[2]
+    /\ hist' = Append(hist, [op |-> "push_prio", r |-> r, d |-> dist])
 PopBest == /\ Len(hist) < MaxLen
            /\ IF buf = {} THEN UNCHANGED buf ELSE \E x \in Best(buf) : buf' = buf \ {x}
            /\ hist' = Append(hist, [op |-> "pop", r |-> <<>>, d |-> 0])
            /\ UNCHANGED parent
-Next == \/ \E r \in Chains(Free), dist \in {0, 1} : PushAll(r, dist)
-        \/ \E r \in Chains(Free), dist \in {0, 1} : PushPrio(r, dist)
+\* (constant quantifier domains, so that TLC reports coverage per action)
+Next == \/ \E r \in Chains(Items), dist \in {0, 1} : PushAll(r, dist)
+        \/ \E r \in Chains(Items), dist \in {0, 1} : PushPrio(r, dist)
         \/ PopBest
 Spec == Init /\ [][Next]_vars
 
